@@ -484,6 +484,37 @@ inductive Reachable (reason : List Nat) (script : List Act) : St → Prop where
   | init : Reachable reason script (St.init script)
   | step {s s' : St} (l : Label) : Reachable reason script s → step reason s l = some s' → Reachable reason script s'
 
+/-! ### several requests in flight together
+
+`ServeHTTP` builds, per request, its own `timeoutWriter` (`tw := &timeoutWriter{…}`), its own `done` / `panicChan`
+channels and its own derived context; the file has no package-level variable and `ServeHTTP` assigns to nothing declared
+outside it (Tie: `tie_serveHTTPFlow`, `tie_sem_no_state_between_calls`, `tie_sem_no_package_state`).  So a server with any
+number of requests in flight — through one `timeoutHandler` or several — is the free product of single-request systems:
+a step of request `i` changes the state of request `i` only. -/
+
+/-- the state of all requests (request id → its `St`; a request that has not started yet is in `St.init`) -/
+abbrev MSt := Nat → St
+
+def MSt.init (scripts : Nat → List Act) : MSt := fun i => St.init (scripts i)
+
+/-- request `i` (its handler goroutine, its context, or its ServeHTTP goroutine) makes the step `l` -/
+def mstep (reason : List Nat) (m : MSt) (i : Nat) (l : Label) : Option MSt :=
+  match step reason (m i) l with
+  | some s' => some (fun j => if j = i then s' else m j)
+  | none => none
+
+inductive MReachable (reason : List Nat) (scripts : Nat → List Act) : MSt → Prop where
+  | init : MReachable reason scripts (MSt.init scripts)
+  | step {m m' : MSt} (i : Nat) (l : Label) : MReachable reason scripts m → mstep reason m i l = some m' →
+      MReachable reason scripts m'
+
+/-- run an interleaved schedule of several requests -/
+def runMulti (reason : List Nat) (m : MSt) : List (Nat × Label) → Option MSt
+  | [] => some m
+  | (i, l) :: ls => match mstep reason m i l with
+    | some m' => runMulti reason m' ls
+    | none => none
+
 /-- exempt requests (websocket / SSE) and `duration ≤ 0`: the handler writes straight to the real writer -/
 def directStep (w : Rec) : Act → Rec × Res
   | .setHeader k v => ({ w with hdr := hset w.hdr k v }, .ok)
@@ -594,5 +625,23 @@ def runSel (stepf : SelSt → SelLabel → Option SelSt) (s : SelSt) : List SelL
   | l :: ls => match stepf s l with
     | some s' => runSel stepf s' ls
     | none => none
+
+/-! ### several calls in flight through one interceptor / several `DoWithTimeout` calls: each call has its own `done`,
+`panicChan`, lock and result variables (declared inside the per-call closure; Tie `tie_sem_no_state_between_calls`,
+`tie_sem_no_package_state`), so the calls form the free product of single-call systems. -/
+
+abbrev MSel := Nat → SelSt
+
+def MSel.init (works : Nat → Work) : MSel := fun i => { work := works i }
+
+def mselStep (stepf : SelSt → SelLabel → Option SelSt) (m : MSel) (i : Nat) (l : SelLabel) : Option MSel :=
+  match stepf (m i) l with
+  | some s' => some (fun j => if j = i then s' else m j)
+  | none => none
+
+inductive MSelReach (stepf : SelSt → SelLabel → Option SelSt) (works : Nat → Work) : MSel → Prop where
+  | init : MSelReach stepf works (MSel.init works)
+  | step {m m' : MSel} (i : Nat) (l : SelLabel) : MSelReach stepf works m → mselStep stepf m i l = some m' →
+      MSelReach stepf works m'
 
 end GoZero.C04
